@@ -20,6 +20,7 @@ MIN_EVAL = dict (quick = 200, thorough = 2500)
 ANCHORS  = ['Mininec.compute_impedance_matrix', 'Mininec.vector_potential', 'Mininec.scalar_potential', 'Mininec.psi'
            , 'Mininec.integral_i2_i3', 'Mininec.fast_quad', 'Pulse.endseg', 'Pulse.dvecs', 'Geobj.compute_connections']
 ANCHORS_REQUIRED = ['Mininec.compute_impedance_matrix', 'Mininec.psi', 'Mininec.integral_i2_i3']
+ANCHORS_MIN = {'Mininec.compute_impedance_matrix': 0.95, 'Mininec.scalar_potential': 0.95, 'Mininec.vector_potential': 0.95}
 ASSUMPTIONS = [ 'Gauss-Legendre 32 x 2 vs 32 x 4 agreement 1e-9 (else scipy quad epsrel 1e-10) as quadrature self-check'
               , 'which two objects a pulse joins is taken from the model (decided by C12/C17); all coordinates come from the reference geometry'
               ]
